@@ -25,6 +25,9 @@ type RoutineContainer struct {
 	ctx context.Context
 	// routine is the current running routine, if any
 	routine *runningRoutine
+	// prevExitedCh is the exited channel of a removed routine which may still be
+	// returning; the next routine instance waits for it. may be nil.
+	prevExitedCh <-chan struct{}
 	// retryBo is the retry backoff if retrying is enabled.
 	retryBo cbackoff.BackOff
 }
@@ -171,11 +174,23 @@ func (k *RoutineContainer) setRoutineLocked(routine Routine, broadcast func()) (
 		k.routine = nil
 	}
 
+	// the next instance has to wait for the most recently removed one, even if
+	// that one was removed by an earlier call (routine unset or no context)
+	waitCh := prevExitedCh
+	if waitCh == nil {
+		waitCh = k.prevExitedCh
+	}
+	k.prevExitedCh = waitCh
+
 	if routine != nil {
 		r := newRunningRoutine(k, routine)
 		k.routine = r
+		k.prevExitedCh = nil
 		if k.ctx != nil {
-			k.routine.start(k.ctx, prevExitedCh, false)
+			k.routine.start(k.ctx, waitCh, false)
+		} else {
+			// not started yet: start() will be passed r.exitedCh as waitCh
+			r.exitedCh = waitCh
 		}
 		broadcast()
 	} else if wasReset {
